@@ -4,6 +4,45 @@
 """
 import ast
 
+def _module_consts(*trees):
+    """NAME -> value node for module-level and class-level `NAME = <expr>` assignments of the given modules"""
+    out = {}
+    for tree in trees:
+        for n in tree.body:
+            if isinstance(n, ast.Assign) and len(n.targets) == 1 and isinstance(n.targets[0], ast.Name):
+                out.setdefault(n.targets[0].id, n.value)
+            if isinstance(n, ast.ClassDef):
+                for m in n.body:
+                    if isinstance(m, ast.Assign) and len(m.targets) == 1 and isinstance(m.targets[0], ast.Name):
+                        out.setdefault(m.targets[0].id, m.value)
+    return out
+
+
+def _resolve(node, consts, depth=0):
+    """follow `NAME` / `Something.NAME` to the constant expression it was assigned (a literal moved into a named constant is the same
+    constant: the extractor follows the name instead of insisting on the literal's position)"""
+    while depth < 5:
+        key = node.id if isinstance(node, ast.Name) else node.attr if isinstance(node, ast.Attribute) else None
+        if key is None or key not in consts:
+            return node
+        node = consts[key]
+        depth += 1
+    return node
+
+
+def _assign_in_class(tree, cls, var, consts=None):
+    """value node of the first `var = <constant expression>` in any method of class `cls` (the statement may move between methods;
+    assignments of computed values to the same name are skipped)"""
+    for c in tree.body:
+        if isinstance(c, ast.ClassDef) and c.name == cls:
+            for n in ast.walk(c):
+                if isinstance(n, ast.Assign) and len(n.targets) == 1 and getattr(n.targets[0], "id", "") == var:
+                    v = _resolve(n.value, consts or {})
+                    if isinstance(v, ast.Call) and getattr(v.func, "id", getattr(v.func, "attr", None)) == "Decimal" \
+                            and len(v.args) == 1 and isinstance(v.args[0], ast.Constant):
+                        return v
+    return None
+
 
 def register(add, parse, find_func, const_int, rat_of, ShapeError, module_assign):
     def class_const(tree, cls, name):
@@ -35,6 +74,7 @@ def register(add, parse, find_func, const_int, rat_of, ShapeError, module_assign
         raise ShapeError("not a float constant expression: " + ast.dump(node))
 
     core = parse("demeter/aave/core.py")
+    named = _module_consts(core, parse("demeter/aave/helper.py"), parse("demeter/aave/market.py"))
     for py, lean, doc in (
         ("HEALTH_FACTOR_LIQUIDATION_THRESHOLD", "arHfLiqThreshold", "health factor below which a position is liquidated / a withdrawal refused"),
         ("DEFAULT_LIQUIDATION_CLOSE_FACTOR", "arDefaultCloseFactor", "close factor when HF > CLOSE_FACTOR_HF_THRESHOLD"),
@@ -49,7 +89,7 @@ def register(add, parse, find_func, const_int, rat_of, ShapeError, module_assign
     margin = None
     for n in ast.walk(f):
         if isinstance(n, ast.Return) and isinstance(n.value, ast.BinOp) and isinstance(n.value.op, ast.Mult):
-            margin = dec_arg(n.value.right, "get_max_borrow_value margin")
+            margin = dec_arg(_resolve(n.value.right, named), "get_max_borrow_value margin")
     if margin is None:
         raise ShapeError("get_max_borrow_value: `(...) * Decimal(..)` return not found")
     add("arMaxBorrowMargin", "Rat", rat_of(margin), f"the factor Decimal({margin!r}) in AaveV3CoreLib.get_max_borrow_value")
@@ -66,12 +106,11 @@ def register(add, parse, find_func, const_int, rat_of, ShapeError, module_assign
 
     # _liquidate: start values of the two selection loops
     market = parse("demeter/aave/market.py")
-    liq = find_func(market, "_liquidate", cls="AaveV3Market")
     start = {}
-    for n in ast.walk(liq):
-        if isinstance(n, ast.Assign) and getattr(n.targets[0], "id", "") in ("min_borrow_value", "max_supply_value") \
-                and isinstance(n.value, ast.Call):
-            start.setdefault(n.targets[0].id, dec_arg(n.value, n.targets[0].id))
+    for var in ("min_borrow_value", "max_supply_value"):
+        v = _assign_in_class(market, "AaveV3Market", var, named)      # the selection loops may live in helpers of the class
+        if v is not None:
+            start[var] = dec_arg(_resolve(v, named), var)
     if set(start) != {"min_borrow_value", "max_supply_value"}:
         raise ShapeError("_liquidate: start values of min_borrow_value / max_supply_value not found")
     add("arLiqDebtSentinel", "Rat", rat_of(start["min_borrow_value"]),
